@@ -90,14 +90,15 @@ def gen_history(rng):
                      "mode": rng.choice(("dryrun", "skip", "normal", "normal", "normal")), "pass": rng.choice(("pw1", "s3cret"))})
     script = []
     cval = 0
-    for _ in range(2 * nops):
+    for i in range(2 * nops):
         cookies = []
         for _c in range(rng.choice((0, 0, 1, 1, 2))):
             cval += 1
             cookies.append((rng.randrange(3), cval))
         r = rng.random()
         if r < 0.7:
-            bp = ("p", rng.randint(1, 6), rng.randint(1, 6))
+            base = 2 + i // 3      # mostly non-decreasing dates, now and then an older profile (the assert fires)
+            bp = ("p", rng.choice((base, base, base + 1, base + 1, base - 1)), rng.randint(1, 6))
         else:
             bp = (rng.choice("UUEGTX"),)
         bm = ("T",) if rng.random() < 0.1 else ("G",)
@@ -157,7 +158,13 @@ class Runner:
         self.net = F.FakeNet(self._answer)
 
     def _answer(self, seen):
-        e = self.script[seen.n - self.base] if seen.n - self.base < len(self.script) else None
+        a = self._answer1(seen)
+        i = seen.n - self.base
+        a.ids = [] if a.transport_error or not (0 <= i < len(self.script)) else [list(x) for x in self.script[i]["cookies"]]
+        return a
+
+    def _answer1(self, seen):
+        e = self.script[seen.n - self.base] if 0 <= seen.n - self.base < len(self.script) else None
         if e is None:
             return F.Answer(F.GARBAGE)
         b = e["bp"] if seen.kind == "profile" else e["bm"]
@@ -218,8 +225,7 @@ class Runner:
                              "user": s.creds[0], "pass": s.creds[1],
                              "dtprofup": None if dt is None else (["default"] if dt.startswith("19900101000000") else [parse_dt(dt)]),
                              "cookies": sorted(cookie_ids(s.cookies))})
-                evs.append((reqs[-1], [] if s.answer is None or s.answer.transport_error else
-                            [list(x) for x in case["script"][s.n - self.base]["cookies"]]))
+                evs.append((reqs[-1], getattr(s.answer, "ids", [])))
                 # the body of the POST is the serialised request: what the same call returns on a dry run
                 if s.kind != "profile":
                     try:
